@@ -1436,3 +1436,375 @@ Lemma ex_holds : holds_reply ex_s0 0.
 Proof. unfold holds_reply. split; [|split]; vm_compute; eauto. Qed.
 Lemma ex_after : cp ex_s 0 = CDone true /\ cp ex_s 1 = CDone false /\ evclosed ex_s 0 = true /\ delivered ex_s 0 = 1 /\ cbcount ex_s 0 = 1.
 Proof. repeat split; vm_compute; reflexivity. Qed.
+
+Fixpoint sumf (f : nat -> nat) (n : nat) : nat := match n with 0 => 0 | S k => sumf f k + f k end.
+Lemma sumf_ext : forall f g n, (forall i, i < n -> g i = f i) -> sumf g n = sumf f n.
+Proof. induction n; intros H; simpl; auto. rewrite IHn, H; auto. Qed.
+Lemma sumf_change : forall f g k n, (forall i, i <> k -> g i = f i) -> k < n -> sumf g n + f k = sumf f n + g k.
+Proof.
+  induction n; intros H Hk; [lia|]. simpl. destruct (Nat.eq_dec k n) as [E|Hne].
+  - subst k. assert (E : sumf g n = sumf f n) by (apply sumf_ext; intros i Hi; apply H; lia). lia.
+  - assert (E : g n = f n) by (apply H; auto). assert (k < n) by lia. specialize (IHn H H0). lia.
+Qed.
+
+Definition callrank (p : cpc) : nat :=
+  match p with CIdle => 9 | CMade _ => 5 | CWait => 4 | CFailed _ => 2 | CCancel => 1 | CDone _ => 0 end.
+Definition subrank (p : spc) : nat := match p with SNone => 5 | SLoop => 1 | SSend => 2 | SDone => 0 end.
+Definition procrank (p : ppc) : nat := match p with PDone => 0 | PClosing => 1 | PFail => 2 | PRead => 3 | PHave _ => 7 end.
+Definition usrrank (p : upc) : nat := match p with UIdle => 2 | UMid => 1 | UFin => 0 end.
+Definition crank (cl : list (owner * bool * nat)) : nat := fold_right (fun x a => (2 - snd x) + a) 0 cl.
+Definition callw (s : state) (c : nat) : nat := callrank (cp s c) + (if cancelled s c then 0 else 1).
+Definition subw (s : state) (i : nat) : nat := subrank (sp s i) + 3 * length (q (ch s (OSub i))).
+Definition cbw (s : state) (j : nat) : nat := if cbreg s j then 0 else 4.
+
+(* the number of steps still possible once no new message can arrive *)
+Definition measure (s : state) : nat :=
+  sumf (callw s) (nn s) + sumf (subw s) (mm s) + sumf (cbw s) (dd s) + procrank (proc s) + usrrank (usr s) +
+  3 * length (owners (table s)) + crank (closers s) + (if dead s then 0 else 1).
+
+Lemma crank_app : forall a b, crank (a ++ b) = crank a + crank b.
+Proof. induction a; intro b; simpl; auto. rewrite IHa. lia. Qed.
+Lemma crank_spawned : forall tb e, crank (spawned tb e) = 2 * length (owners tb).
+Proof. induction tb as [|x r IH]; intro e; simpl; auto. destruct x; simpl; rewrite ?crank_app, IH; simpl; lia. Qed.
+Lemma crank_setnth : forall cl k o e ph, nth_error cl k = Some (o, e, ph) -> ph <= 1 ->
+  crank (setnth k (o, e, S ph) cl) + 1 = crank cl.
+Proof.
+  induction cl as [|x r IH]; intros k o e ph H Hle; destruct k; simpl in *; try discriminate.
+  - inversion H; subst. destruct ph as [|[|ph]]; simpl; lia.
+  - rewrite <- (IH _ _ _ _ H Hle). lia.
+Qed.
+Lemma alloc_len : forall tb o, length (owners (fst (alloc tb o))) = S (length (owners tb)).
+Proof.
+  intros tb o. destruct (alloc_owners tb o) as (l1 & l2 & E1 & E2). rewrite E1, E2, !app_length. simpl. lia.
+Qed.
+Lemma setnth_none_len : forall tb k, length (owners (setnth k None tb)) <= length (owners tb).
+Proof.
+  induction tb as [|x r IH]; intros k; destruct k; simpl; auto.
+  - destruct x; simpl; lia.
+  - destruct x; simpl; specialize (IH k); lia.
+Qed.
+Lemma remove_handler_len : forall s k, length (owners (table (remove_handler s k))) <= length (owners (table s)).
+Proof.
+  intros s k. unfold remove_handler. destruct (nth_error (table s) k) as [[o|]|]; simpl; auto. apply setnth_none_len.
+Qed.
+Lemma clearo_len : forall o tb, length (owners (clearo o tb)) <= length (owners tb).
+Proof. induction tb as [|x r IH]; simpl; auto. destruct x as [o'|]; simpl; auto. destruct (owner_eqb o' o); simpl; lia. Qed.
+Lemma clearo_len_in : forall o tb, In o (owners tb) -> length (owners (clearo o tb)) < length (owners tb).
+Proof.
+  induction tb as [|x r IH]; simpl; intro H; [contradiction|]. destruct x as [o'|]; simpl in *; auto.
+  destruct (owner_eqb o' o) eqn:E; simpl.
+  - pose proof (clearo_len o r). unfold clearo in *. lia.
+  - destruct H as [->|H]; [rewrite owner_eqb_refl in E; discriminate|]. specialize (IH H). unfold clearo in *. lia.
+Qed.
+Lemma enqueue_len : forall s o t x, length (q (ch (enqueue s o t) x)) <= length (q (ch s x)) + (if owner_eqb x o then 1 else 0).
+Proof.
+  intros s o t x. unfold enqueue. destruct (qclosed (ch s o)); simpl; [lia|].
+  destruct (length (q (ch s o)) <? capacity o); simpl; [|lia].
+  unfold updo. destruct (owner_eqb x o) eqn:E; [|lia]. apply owner_eqb_eq in E; subst. simpl. rewrite app_length. simpl. lia.
+Qed.
+
+Lemma sum_same : forall (f g : nat -> nat) n, (forall x, g x = f x) -> sumf g n = sumf f n.
+Proof. intros; apply sumf_ext; auto. Qed.
+
+Ltac sum_at f g k n :=
+  let H := fresh "S" in
+  assert (H : sumf g n + f k = sumf f n + g k);
+  [apply sumf_change; [intros x Hx; unfold callw, subw, cbw; simpl; rewrite ?upd_other by assumption; try reflexivity|try assumption]|].
+
+(* comparison of measures from the parts *)
+Lemma measure_parts : forall s s' a b,
+  nn s' = nn s -> mm s' = mm s -> dd s' = dd s ->
+  (forall x, callw s' x = callw s x) -> (forall x, subw s' x = subw s x) -> (forall x, cbw s' x = cbw s x) ->
+  procrank (proc s') + usrrank (usr s') + 3 * length (owners (table s')) + crank (closers s') + (if dead s' then 0 else 1) + a =
+  procrank (proc s) + usrrank (usr s) + 3 * length (owners (table s)) + crank (closers s) + (if dead s then 0 else 1) + b ->
+  measure s' + a = measure s + b.
+Proof.
+  intros s s' a b N1 N2 N3 H1 H2 H3 H. unfold measure. rewrite N1, N2, N3.
+  rewrite (sum_same _ _ (nn s) H1), (sum_same _ _ (mm s) H2), (sum_same _ _ (dd s) H3). lia.
+Qed.
+
+Lemma measure_cp : forall s c v, c < nn s -> callrank v < callrank (cp s c) -> measure (set_cp s (upd (cp s) c v)) < measure s.
+Proof.
+  intros s c v Hc Hv. unfold measure; simpl.
+  sum_at (callw s) (callw (set_cp s (upd (cp s) c v))) c (nn s).
+  unfold callw in S at 2 4. simpl in S. rewrite upd_same in S.
+  change (subw (set_cp s (upd (cp s) c v))) with (subw s). change (cbw (set_cp s (upd (cp s) c v))) with (cbw s). lia.
+Qed.
+
+Lemma measure_callq : forall s c v, measure (set_ch s (updo (ch s) (OCall c) v)) = measure s.
+Proof.
+  intros s c v. assert (H := measure_parts s (set_ch s (updo (ch s) (OCall c) v)) 0 0).
+  assert (E : measure (set_ch s (updo (ch s) (OCall c) v)) + 0 = measure s + 0) by (apply H; auto). lia.
+Qed.
+
+Lemma subw_close_sync : forall s o x, subw (close_sync s o) x = subw s x.
+Proof.
+  intros s o x. unfold subw. rewrite q_close_sync. destruct (ctl_close_sync s o) as (_ & A2 & _). rewrite A2. reflexivity.
+Qed.
+
+Lemma measure_remove_handler : forall s k, measure (remove_handler s k) <= measure s.
+Proof.
+  intros s k. destruct (ctl_remove_handler s k) as (A1 & A2 & A3 & A4 & A5 & A6 & A7 & A8 & A9 & A10 & A11 & A12 & A13 & A14 & A15).
+  pose proof (remove_handler_len s k) as L.
+  set (dl := length (owners (table s)) - length (owners (table (remove_handler s k)))).
+  assert (H := measure_parts s (remove_handler s k) (3 * dl) 0).
+  assert (E : measure (remove_handler s k) + 3 * dl = measure s + 0).
+  { apply H; auto.
+    - intro x. unfold callw. rewrite A1, A8. reflexivity.
+    - intro x. unfold subw. rewrite A2, q_remove_handler. reflexivity.
+    - intro x. unfold cbw. rewrite A3. reflexivity.
+    - rewrite A4, A5, A7, A12. unfold dl. lia. }
+  lia.
+Qed.
+
+Lemma measure_call : forall s l s', Inv s -> bounded s -> step_call s l = Some s' -> measure s' < measure s.
+Proof.
+  intros s l s' I B H.
+  assert (R : forall c, cp s c <> CIdle -> c < nn s) by (intros c Hc; apply (B (OCall c)); exact Hc).
+  destruct l; simpl in H; try discriminate.
+  - (* LCancel *) destruct (c <? nn s) eqn:Ec; simpl in H; try discriminate. destruct (cancelled s c) eqn:Ek; simpl in H; try discriminate.
+    inversion H; subst; clear H. apply Nat.ltb_lt in Ec. unfold measure; simpl.
+    sum_at (callw s) (callw (set_cancelled s (upd (cancelled s) c true))) c (nn s).
+    unfold callw in S at 2 4. simpl in S. rewrite upd_same, Ek in S.
+    change (subw (set_cancelled s (upd (cancelled s) c true))) with (subw s).
+    change (cbw (set_cancelled s (upd (cancelled s) c true))) with (cbw s). lia.
+  - (* LCallMake *)
+    destruct (c <? nn s) eqn:Ec; try discriminate. apply Nat.ltb_lt in Ec. destruct (cp s c) eqn:Ep; try discriminate.
+    destruct (cancelled s c) eqn:Ek.
+    + inversion H; subst; clear H. apply measure_cp; auto. rewrite Ep; simpl; lia.
+    + rewrite (alloc_fst_snd (table s) (OCall c)) in H. inversion H; subst; clear H. unfold measure; simpl.
+      rewrite alloc_len.
+      set (s' := set_cp (set_table s (fst (alloc (table s) (OCall c)))) (upd (cp s) c (CMade (snd (alloc (table s) (OCall c)))))).
+      sum_at (callw s) (callw s') c (nn s).
+      unfold callw in S at 2 4. simpl in S. rewrite upd_same, Ep, Ek in S. simpl in S.
+      change (subw s') with (subw s). change (cbw s') with (cbw s). lia.
+  - (* LCallSend *) destruct (cp s c) eqn:Ep; try discriminate. destruct (closed s); try discriminate. inversion H; subst.
+    apply measure_cp; [apply R; congruence|rewrite Ep; simpl; lia].
+  - (* LCallSendFail *) destruct (cp s c) eqn:Ep; try discriminate. destruct (lost s); try discriminate. inversion H; subst.
+    apply measure_cp; [apply R; congruence|rewrite Ep; simpl; lia].
+  - (* LCallRemove *) destruct (cp s c) eqn:Ep; try discriminate. inversion H; subst; clear H.
+    destruct (ctl_remove_handler s slot) as (A1 & _ & _ & _ & _ & _ & _ & _ & A9 & _).
+    eapply Nat.lt_le_trans; [apply measure_cp|apply measure_remove_handler].
+    + rewrite A9. apply R; congruence.
+    + rewrite A1, Ep; simpl; lia.
+  - (* LCallSel *) destruct (cp s c) eqn:Ep; try discriminate.
+    assert (Hc : c < nn s) by (apply R; congruence). destruct b.
+    + destruct (errs s c); try discriminate. inversion H; subst; clear H.
+      change (measure s) with (measure (set_errs s (upd (errs s) c false))).
+      apply (measure_cp (set_errs s (upd (errs s) c false))); simpl; auto. rewrite Ep; simpl; lia.
+    + destruct (q (ch s (OCall c))) as [|t r] eqn:Eq.
+      * destruct (qclosed (ch s (OCall c))); try discriminate. inversion H; subst.
+        apply measure_cp; auto. rewrite Ep; simpl; lia.
+      * inversion H; subst; clear H.
+        rewrite <- (measure_callq s c {| q := r; qclosed := qclosed (ch s (OCall c)) |}).
+        apply (measure_cp (set_ch s (updo (ch s) (OCall c) {| q := r; qclosed := qclosed (ch s (OCall c)) |}))); simpl; auto.
+        rewrite Ep; simpl; lia.
+    + destruct (cancelled s c); try discriminate. inversion H; subst. apply measure_cp; auto. rewrite Ep; simpl; lia.
+  - (* LCallCancelSend *) destruct (cp s c) eqn:Ep; try discriminate. inversion H; subst.
+    apply measure_cp; [apply R; congruence|rewrite Ep; simpl; lia].
+Qed.
+
+Lemma measure_sub : forall s l s', Inv s -> bounded s -> step_sub s l = Some s' -> measure s' < measure s.
+Proof.
+  intros s l s' I B H.
+  assert (R : forall i, sp s i <> SNone -> i < mm s) by (intros i Hi; apply (B (OSub i)); exact Hi).
+  destruct l; simpl in H; try discriminate.
+  - (* LSubscribe *)
+    destruct (i <? mm s) eqn:Ei; try discriminate. apply Nat.ltb_lt in Ei. destruct (sp s i) eqn:Es; try discriminate.
+    rewrite (alloc_fst_snd (table s) (OSub i)) in H. inversion H; subst; clear H. unfold measure; simpl. rewrite alloc_len.
+    set (s' := set_sp (set_table s (fst (alloc (table s) (OSub i)))) (upd (sp s) i SLoop)).
+    sum_at (subw s) (subw s') i (mm s).
+    unfold subw in S at 2 4. simpl in S. rewrite upd_same, Es in S. simpl in S.
+    change (callw s') with (callw s). change (cbw s') with (cbw s). lia.
+  - (* LSubTake *)
+    destruct (sp s i) eqn:Es; try discriminate. destruct (q (ch s (OSub i))) as [|t r] eqn:Eq; try discriminate.
+    inversion H; subst; clear H. assert (Hi : i < mm s) by (apply R; congruence). unfold measure; simpl.
+    set (s' := set_sp (set_ch s (updo (ch s) (OSub i) {| q := r; qclosed := qclosed (ch s (OSub i)) |}))
+                      (upd (sp s) i (if mtype_eqb t TEvent then SSend else SLoop))).
+    assert (S : sumf (subw s') (mm s) + subw s i = sumf (subw s) (mm s) + subw s' i).
+    { apply sumf_change; auto. intros x Hx. unfold subw, s'; simpl. rewrite upd_other by assumption.
+      rewrite updo_other; auto. intro E; inversion E; contradiction. }
+    unfold subw in S at 2 4. unfold s' in S at 2 3. simpl in S. rewrite upd_same, updo_same, Es, Eq in S. simpl in S.
+    change (callw s') with (callw s). change (cbw s') with (cbw s).
+    destruct (mtype_eqb t TEvent); simpl in S; lia.
+  - (* LSubClosed *)
+    destruct (sp s i) eqn:Es; try discriminate. destruct (q (ch s (OSub i))) eqn:Eq; try discriminate.
+    destruct (qclosed (ch s (OSub i))); try discriminate. assert (Hi : i < mm s) by (apply R; congruence).
+    assert (Hev : evclosed s i = false).
+    { destruct (evclosed s i) eqn:E; auto. apply (iG s I) in E. congruence. }
+    rewrite Hev in H. inversion H; subst; clear H. unfold measure; simpl.
+    set (s' := set_sp (set_evclosed s (upd (evclosed s) i true)) (upd (sp s) i SDone)).
+    sum_at (subw s) (subw s') i (mm s).
+    unfold subw in S at 2 4. simpl in S. rewrite upd_same, Es in S. simpl in S.
+    change (callw s') with (callw s). change (cbw s') with (cbw s). lia.
+  - (* LSubRead *)
+    destruct (sp s i) eqn:Es; try discriminate. inversion H; subst; clear H. assert (Hi : i < mm s) by (apply R; congruence).
+    unfold measure; simpl.
+    set (s' := set_sp (set_delivered s (upd (delivered s) i (S (delivered s i)))) (upd (sp s) i SLoop)).
+    sum_at (subw s) (subw s') i (mm s).
+    unfold subw in S at 2 4. simpl in S. rewrite upd_same, Es in S. simpl in S.
+    change (callw s') with (callw s). change (cbw s') with (cbw s). lia.
+  - (* LOnDisc *)
+    destruct (j <? dd s) eqn:Ej; simpl in H; try discriminate. apply Nat.ltb_lt in Ej.
+    destruct (cbreg s j) eqn:Er; simpl in H; try discriminate.
+    rewrite (alloc_fst_snd (table s) (OCb j)) in H. inversion H; subst; clear H. unfold measure; simpl. rewrite alloc_len.
+    set (s' := set_cbreg (set_table s (fst (alloc (table s) (OCb j)))) (upd (cbreg s) j true)).
+    sum_at (cbw s) (cbw s') j (dd s).
+    unfold cbw in S at 2 4. simpl in S. rewrite upd_same, Er in S.
+    change (callw s') with (callw s). change (subw s') with (subw s). lia.
+Qed.
+
+Lemma measure_parts_le : forall s s' a b d,
+  nn s' = nn s -> mm s' = mm s -> dd s' = dd s ->
+  (forall x, callw s' x = callw s x) -> sumf (subw s') (mm s) <= sumf (subw s) (mm s) + d -> (forall x, cbw s' x = cbw s x) ->
+  procrank (proc s') + usrrank (usr s') + 3 * length (owners (table s')) + crank (closers s') + (if dead s' then 0 else 1) + a + d <=
+  procrank (proc s) + usrrank (usr s) + 3 * length (owners (table s)) + crank (closers s) + (if dead s then 0 else 1) + b ->
+  measure s' + a <= measure s + b.
+Proof.
+  intros s s' a b d N1 N2 N3 H1 H2 H3 H. unfold measure. rewrite N1, N2, N3.
+  rewrite (sum_same _ _ (nn s) H1), (sum_same _ _ (dd s) H3). lia.
+Qed.
+
+Lemma measure_ep : forall s l s', Inv s -> step_ep s l = Some s' -> (forall m, l <> LPeerMsg m) -> measure s' < measure s.
+Proof.
+  intros s l s' I H NP. destruct l; simpl in H; try discriminate.
+  - (* LConnDie *) destruct (dead s) eqn:Ed; inversion H; subst; clear H.
+    assert (E : measure (set_dead s true) + 1 = measure s + 0) by (apply measure_parts; auto; simpl; rewrite Ed; lia). lia.
+  - exfalso. eapply NP; eauto.
+  - (* LReadFail *) destruct (proc s) eqn:Ep; try discriminate. destruct (lost s); inversion H; subst; clear H.
+    assert (E : measure (set_proc s PFail) + 1 = measure s + 0) by (apply measure_parts; auto; simpl; rewrite Ep; simpl; lia). lia.
+  - (* LDispatch *)
+    destruct (proc s) eqn:Ep; try discriminate. destruct (disp m (table s) s) as [tb s1] eqn:Ed. inversion H; subst; clear H.
+    assert (NDt : NoDup (owners (table s))).
+    { pose proof (iB s I) as B. unfold ALL in B. clear - B. induction (cowners (closers s)); simpl in *; auto. inversion B; auto. }
+    assert (NoM : (forall o1, In o1 (owners (table s)) -> matches o1 m = false) -> measure (set_proc (set_table s1 tb) PRead) < measure s).
+    { intro Hn. rewrite disp_nomatch in Ed by assumption. inversion Ed; subst.
+      assert (E : measure (set_proc (set_table s1 (table s1)) PRead) + 4 = measure s1 + 0) by (apply measure_parts; auto; simpl; rewrite Ep; simpl; lia). lia. }
+    destruct m as [o t|].
+    2:{ apply NoM. intros o1 _. destruct o1; reflexivity. }
+    destruct (in_dec owner_dec o (owners (table s))) as [Hin|Hnin].
+    2:{ apply NoM. intros o1 H1. destruct (matches o1 (MFor o t)) eqn:E; auto.
+        destruct (matches_target _ _ E) as [t' Et]. inversion Et; subst. contradiction. }
+    destruct (matches o (MFor o t)) eqn:HM.
+    2:{ apply NoM. intros o1 H1. destruct (matches o1 (MFor o t)) eqn:E; auto.
+        destruct (matches_target _ _ E) as [t' Et]. inversion Et; subst. congruence. }
+    rewrite (disp_match o t (table s) s NDt Hin HM) in Ed.
+    destruct (ctl_enqueue s o t) as (A1 & A2 & A3 & A4 & A5 & A6 & A7 & A8 & A9 & A10 & A11 & A12 & A13 & A14 & A15).
+    assert (Hsub : sumf (subw (enqueue s o t)) (mm s) <= sumf (subw s) (mm s) + 3).
+    { destruct o as [c|i|j].
+      - rewrite (sum_same (subw s)); [lia|]. intro x. unfold subw. rewrite A2.
+        pose proof (q_enqueue_other s (OCall c) t (OSub x)) as Q. rewrite Q; auto. discriminate.
+      - destruct (lt_dec i (mm s)) as [Hi|Hi].
+        + assert (S : sumf (subw (enqueue s (OSub i) t)) (mm s) + subw s i = sumf (subw s) (mm s) + subw (enqueue s (OSub i) t) i).
+          { apply sumf_change; auto. intros x Hx. unfold subw. rewrite A2. rewrite q_enqueue_other; auto. intro E; inversion E; contradiction. }
+          pose proof (enqueue_len s (OSub i) t (OSub i)) as L. rewrite owner_eqb_refl in L.
+          unfold subw in S at 2 4. rewrite A2 in S. lia.
+        + rewrite (sumf_ext (subw s)); [lia|]. intros x Hx. unfold subw. rewrite A2.
+          rewrite q_enqueue_other; auto. intro E; inversion E; subst; contradiction.
+      - rewrite (sum_same (subw s)); [lia|]. intro x. unfold subw. rewrite A2.
+        rewrite q_enqueue_other; auto. discriminate. }
+    assert (Hcall : forall x, callw (enqueue s o t) x = callw s x) by (intro x; unfold callw; rewrite A1, A8; reflexivity).
+    assert (Hcb : forall x, cbw (enqueue s o t) x = cbw s x) by (intro x; unfold cbw; rewrite A3; reflexivity).
+    destruct (keeps o (MFor o t)); inversion Ed; subst; clear Ed.
+    + assert (E : measure (set_proc (set_table (enqueue s o t) (table s)) PRead) + 1 <= measure s + 0).
+      { apply (measure_parts_le _ _ 1 0 3); simpl; auto.
+        rewrite A13, A5, A7, Ep. simpl. lia. }
+      lia.
+    + pose proof (clearo_len_in o (table s) Hin) as L.
+      destruct (ctl_close_sync (enqueue s o t) o) as (C1 & C2 & C3 & C4 & C5 & C6 & C7 & C8 & C9 & C10 & C11 & C12 & C13 & C14 & C15).
+      assert (E : measure (set_proc (set_table (close_sync (enqueue s o t) o) (clearo o (table s))) PRead) + 1 <= measure s + 0).
+      { apply (measure_parts_le _ _ 1 0 3); simpl; try congruence.
+        - intro x. unfold callw; simpl. rewrite C1, C8. apply Hcall.
+        - rewrite (sum_same (subw (enqueue s o t))); auto. intro x. apply subw_close_sync.
+        - intro x. unfold cbw; simpl. rewrite C3. apply Hcb.
+        - rewrite C13, C5, C7, A13, A5, A7, Ep. simpl. lia. }
+      lia.
+  - (* LProcClose1 *) destruct (proc s) eqn:Ep; try discriminate. inversion H; subst; clear H.
+    assert (E : measure (set_proc (set_closed s true) PClosing) + 1 = measure s + 0) by (apply measure_parts; auto; simpl; rewrite Ep; simpl; lia). lia.
+  - (* LProcClose2 *) destruct (proc s) eqn:Ep; try discriminate. inversion H; subst; clear H.
+    assert (E : measure (set_proc (spawn_all s true) PDone) + (1 + length (owners (table s))) = measure s + 0).
+    { apply measure_parts; auto. unfold spawn_all; simpl. rewrite owners_map_none, crank_app, crank_spawned, Ep. simpl. lia. }
+    lia.
+  - (* LUserClose1 *) destruct (usr s) eqn:Eu; try discriminate. inversion H; subst; clear H.
+    assert (E : measure (set_usr (set_closed s true) UMid) + 1 = measure s + 0) by (apply measure_parts; auto; simpl; rewrite Eu; simpl; lia). lia.
+  - (* LUserClose2 *) destruct (usr s) eqn:Eu; try discriminate. inversion H; subst; clear H.
+    assert (E : measure (set_usr (spawn_all s false) UFin) + (1 + length (owners (table s))) = measure s + 0).
+    { apply measure_parts; auto. unfold spawn_all; simpl. rewrite owners_map_none, crank_app, crank_spawned, Eu. simpl. lia. }
+    lia.
+  - (* LCloserStep *)
+    destruct (nth_error (closers s) k) as [[[o e] ph]|] eqn:Ek; try discriminate.
+    destruct ph as [|[|ph]]; try discriminate.
+    + destruct (run_closer s o e) as [s1|] eqn:Er; try discriminate. inversion H; subst; clear H.
+      destruct (ctl_run_closer _ _ _ _ Er) as (A1 & A2 & A3 & A4 & A5 & A6 & A7 & A8 & A9 & A10 & A11 & A12 & A13 & A14 & A15).
+      pose proof (ch_run_closer _ _ _ _ Er) as CH.
+      assert (E : measure (set_closers s1 (setnth k (o, e, 1) (closers s1))) + 1 = measure s + 0).
+      { apply measure_parts; simpl; auto.
+        - intro x. unfold callw. simpl. rewrite A1, A8. reflexivity.
+        - intro x. unfold subw. simpl. rewrite A2, CH. reflexivity.
+        - intro x. unfold cbw. simpl. rewrite A3. reflexivity.
+        - rewrite A4, A5, A7, A12, A13. pose proof (crank_setnth _ _ _ _ _ Ek (Nat.le_0_l 1)). lia. }
+      lia.
+    + inversion H; subst; clear H.
+      destruct (ctl_close_chan s o) as (A1 & A2 & A3 & A4 & A5 & A6 & A7 & A8 & A9 & A10 & A11 & A12 & A13 & A14 & A15).
+      assert (E : measure (set_closers (close_chan s o) (setnth k (o, e, 2) (closers (close_chan s o)))) + 1 = measure s + 0).
+      { apply measure_parts; simpl; auto.
+        - intro x. unfold callw. simpl. rewrite A1, A8. reflexivity.
+        - intro x. unfold subw. simpl. rewrite A2, q_close_chan. reflexivity.
+        - intro x. unfold cbw. simpl. rewrite A3. reflexivity.
+        - rewrite A4, A5, A7, A12, A13. pose proof (crank_setnth _ _ _ _ _ Ek (le_n 1)). lia. }
+      lia.
+Qed.
+
+
+Lemma measure_step : forall s l s', Inv s -> bounded s -> step s l = Some s' -> (forall m, l <> LPeerMsg m) ->
+  measure s' < measure s.
+Proof.
+  intros s l s' I B H NP. unfold step in H. destruct (panicked s); try discriminate.
+  destruct l; eauto using measure_call, measure_sub, measure_ep.
+Qed.
+
+Lemma lost_no_peer : forall s m, lost s = true -> step s (LPeerMsg m) = None.
+Proof.
+  intros s m Hl. unfold step. destruct (panicked s); auto. simpl. destruct (proc s); auto. rewrite Hl. reflexivity.
+Qed.
+
+(* once the connection is lost, every schedule is at most [measure s] labels long *)
+Lemma lost_run_bounded : forall tr s s', Inv s -> bounded s -> lost s = true -> run tr s = Some s' ->
+  length tr + measure s' <= measure s.
+Proof.
+  induction tr as [|l r IH]; intros s s' I B Hl H; simpl in H.
+  - inversion H; subst. simpl. lia.
+  - destruct (step s l) as [s1|] eqn:E; try discriminate.
+    assert (NP : forall m, l <> LPeerMsg m).
+    { intros m ->. rewrite lost_no_peer in E by assumption. discriminate. }
+    pose proof (measure_step s l s1 I B E NP) as M.
+    destruct (step_mono _ _ _ E) as (_ & _ & _ & ML & _).
+    specialize (IH s1 s' (inv_step _ _ _ I E) (bounded_step _ _ _ B E) (ML Hl) H). simpl. lia.
+Qed.
+
+Lemma reachable_bounded : forall s, reachable s -> bounded s.
+Proof. intros s (n & m & d & tr & H). eapply bounded_run; eauto using bounded_init. Qed.
+
+Lemma sumf_const : forall k n, sumf (fun _ => k) n = n * k.
+Proof. induction n; simpl; auto. rewrite IHn. lia. Qed.
+Lemma measure_init : forall n m d, measure (init n m d) = 10 * n + 5 * m + 4 * d + 6.
+Proof.
+  intros. unfold measure, callw, subw, cbw; simpl. rewrite !sumf_const. lia.
+Qed.
+
+(* a call takes at most three steps of its own after its handler is made *)
+Lemma call_own_steps : forall s l s' c, step s l = Some s' ->
+  (l = LCallSend c \/ l = LCallSendFail c \/ l = LCallRemove c \/ (exists b, l = LCallSel c b) \/ l = LCallCancelSend c) ->
+  callrank (cp s' c) < callrank (cp s c) /\ callrank (cp s c) <= 5.
+Proof.
+  intros s l s' c H Hl. unfold step in H. destruct (panicked s); try discriminate.
+  destruct Hl as [ -> | [ -> | [ -> | [ [b -> ] | -> ] ] ] ]; simpl in H.
+  - destruct (cp s c) eqn:E; try discriminate. destruct (closed s); inversion H; subst; simpl. rewrite upd_same. simpl; lia.
+  - destruct (cp s c) eqn:E; try discriminate. destruct (lost s); inversion H; subst; simpl. rewrite upd_same. simpl; lia.
+  - destruct (cp s c) eqn:E; try discriminate. inversion H; subst; simpl. rewrite upd_same. simpl; lia.
+  - destruct (cp s c) eqn:E; try discriminate. destruct b.
+    + destruct (errs s c); inversion H; subst; simpl. rewrite upd_same. simpl; lia.
+    + destruct (q (ch s (OCall c))); [destruct (qclosed (ch s (OCall c)))|]; inversion H; subst; simpl; rewrite upd_same; simpl; lia.
+    + destruct (cancelled s c); inversion H; subst; simpl. rewrite upd_same. simpl; lia.
+  - destruct (cp s c) eqn:E; try discriminate. inversion H; subst; simpl. rewrite upd_same. simpl; lia.
+Qed.
